@@ -20,7 +20,7 @@ def main(tier, seed):
     if tier == "quick":
         return E.run_check(PID, tier, seed, shapes=auto_shapes(E.curated_shapes()), nops=4, maxdev=1, bfs_depth=6, probe_every=0, timing_depth=24)
     fam = auto_shapes(E.family_shapes())
-    return E.run_check(PID, tier, seed, shapes=auto_shapes(E.curated_shapes()) + fam, nops=5, maxdev=2, bfs_depth=8, probe_every=0, timing_depth=30, light_names=[s["name"] for s in fam], light_nops=4, light_bfs=4, light_timing=8)
+    return E.run_check(PID, tier, seed, shapes=auto_shapes(E.curated_shapes()) + fam, nops=5, maxdev=1, bfs_depth=8, probe_every=0, timing_depth=30, light_names=[s["name"] for s in fam], light_nops=4, light_bfs=4, light_timing=8)
 
 
 def replay(path):
